@@ -55,7 +55,20 @@ def expressions(ev, tier, seed, rd):
         plancheck.EXPECT[name] = [json.dumps({'e': 'expect', 'name': name, 'var': c['var'], 'kind': c['kind'], 'value': c['value'],
                                               'bvalue': c['bvalue'], 'expr': c['expr'], 'ctx': c['ctx']}, separators=(',', ':'))]
     ev.sample({'expression_case': cases[0]})
-    problems = plancheck.remember(plancheck.write_problems(rd, named))
+    problems = plancheck.write_problems(rd, named)
+    # the same programs read in two parts with a solve() in between: the variables are fixed by the first part, the
+    # expression is translated by the second (constants that are values of fixed variables, not literals)
+    marker = 'b == 3.0; '
+    inc = []
+    for i, c in enumerate(cases):
+        if i % 3 == 0 and marker in c['text']:
+            name = 'ex%05di' % i
+            cut = c['text'].index(marker) + len(marker)
+            files = [p for _, fs in plancheck.write_problems(rd, [(name, c['text'][:cut] + '\n'), (name + '_part1', c['text'][cut:] + '\n')]) for p in fs]
+            inc.append((name, [files[0], '--then', files[1]]))
+            plancheck.EXPECT[name] = [x.replace('"name":"ex%05d"' % i, '"name":"%s"' % name) for x in plancheck.EXPECT['ex%05d' % i]]
+    ev.cov['expression_programs_read_in_two_parts'] = len(inc)
+    problems = plancheck.remember(problems + inc)
     vlib.build_repo('dbg_exec')
     drv = vlib.build_driver('plan_driver', 'dbg_exec', libs=plancheck.LIBS)
     res = plancheck.run_problems(drv, problems, os.path.join(rd, 'expr'), 15)
